@@ -29,6 +29,12 @@ TRUSTED = ["Model/Lift.lean is hand-written; tied to parent.py/location.py/inter
 ASSUMPTIONS = ["hierarchies are built so that each level's sequence equals the extraction of its placement from the level "
                "above (Sequence.__init__ itself only checks lengths)", "sequences over ACGT in this leg (alphabets are C03/C15)"]
 
+# a slice / reverse complement / concatenation of a LOCATED sequence is a new level of a hierarchy: its placement on the
+# parent (the coordinates every later lift composes through) is observed through C03's sequence programs
+BORROW = [dict(prop="c03", max=4000, ops={"seqprog", "append"},
+               why="hierarchy levels made by Sequence.__getitem__ / reverse_complement / append (sequence/sequence.py is "
+                   "one of C04's anchors): the slice's location on its parent must compose like any other placement")]
+
 COMP = {"A": "T", "C": "G", "G": "C", "T": "A"}
 
 
